@@ -51,7 +51,9 @@ package main
 //@ func (r *patchRunner) Apply(filename, f) (fout, comments, matched)
 //@   requires f != nil && astOK(f)
 //@   requires wfProgs(r.patches)
+//@   requires forall i int {r.errors[i]} :: 0 <= i && i < len(r.errors) ==> r.errors[i] != nil
 //@   assigns r.errors, elems(r.errors), group(ast), matchCount, replFail, sitesReplaced
+//@   ensures [C16] recorded-errors-are-errors: forall i int {r.errors[i]} :: 0 <= i && i < len(r.errors) ==> r.errors[i] != nil
 //@   ensures [C06,C08,C09] matched-has-file: matched ==> fout != nil
 //@   ensures [C06] matched-only-after-match: matched ==> matchCount > old(matchCount)
 //@   ensures [C09,C12,C16] failed-replace-means-unmatched: replFail > old(replFail) ==> (!matched && len(r.errors) > old(len(r.errors)))
@@ -59,6 +61,7 @@ package main
 //@   ensures errors-array-same-or-fresh: r.errors.arr == old(r.errors.arr) || fresh(r.errors.arr)
 //@   loop 0
 //@     invariant r.errors.arr == old(r.errors.arr) || fresh(r.errors.arr)
+//@     invariant forall i int {r.errors[i]} :: 0 <= i && i < len(r.errors) ==> r.errors[i] != nil
 //@     invariant astOK(f)
 //@     invariant [C09] later-changes-see-the-rewritten-file: fout == nil || fout == f
 //@     invariant matched ==> fout != nil
@@ -68,6 +71,7 @@ package main
 //@     invariant len(r.errors) >= old(len(r.errors))
 //@   loop 1
 //@     invariant r.errors.arr == old(r.errors.arr) || fresh(r.errors.arr)
+//@     invariant forall i int {r.errors[i]} :: 0 <= i && i < len(r.errors) ==> r.errors[i] != nil
 //@     invariant astOK(f)
 //@     invariant [C09] later-changes-see-the-rewritten-file: fout == nil || fout == f
 //@     invariant matched ==> fout != nil
@@ -130,18 +134,22 @@ package main
 //@   at call (*main.mainCmd).printComments assert [C06,C12] only-matched: ok
 //@   at call (*main.patchRunner).Apply assert [C18] generated-skipped: !(opts.SkipGenerated && ret("main.checkGeneratedCode", 0))
 //@   at call os.WriteFile set intended = store(intended, arg0, string(arg1))
+//@   at call os.ReadFile set runFailures = runFailures + ite(result1 != nil, 1, 0)
 //@   at call go/parser.ParseFile set runFailures = runFailures + ite(result1 != nil, 1, 0)
 //@   at call go/format.Node set runFailures = runFailures + ite(result0 != nil, 1, 0)
 //@   at call golang.org/x/tools/imports.Process set runFailures = runFailures + ite(result1 != nil, 1, 0)
 //@   at call os.WriteFile set runFailures = runFailures + ite(result0 != nil, 1, 0)
 //@   at call (*main.mainCmd).preview set runFailures = runFailures + ite(result0 != nil, 1, 0)
 //@   ensures [C16] exit-status-0-means-no-file-failed: err == nil ==> runFailures == old(runFailures)
+//@   ensures [C16] every-failed-file-is-in-the-returned-error: errCount(err) >= runFailures - old(runFailures)
 //@   loop 0
 //@     invariant [C12] dry-run-frame: (opts.Diff || opts.Print) ==> disk == old(disk)
 //@     invariant errors.arr == 0 || (errors.arr != patchRunner.errors.arr && allocated(errors.arr))
 //@     invariant allocated(patchRunner.errors.arr)
 //@     invariant [C16] a-failed-file-leaves-an-error-behind: runFailures >= old(runFailures) && (runFailures > old(runFailures) ==> len(errors) > 0)
+//@     invariant [C16] one-recorded-error-per-failed-file: len(errors) >= runFailures - old(runFailures)
 //@     invariant [C16] recorded-errors-are-errors: forall i int {errors[i]} :: 0 <= i && i < len(errors) ==> errors[i] != nil
+//@     invariant forall i int {patchRunner.errors[i]} :: 0 <= i && i < len(patchRunner.errors) ==> patchRunner.errors[i] != nil
 //@     invariant [C16] every-file-holds-its-original-or-its-complete-patched-bytes: forall q string {disk[q]} :: disk[q] == old(disk)[q] || disk[q] == intended[q]
 
 //@ func funcval:github.com/uber-go/gopatch.mainCmd.Getwd() (dir, err)
